@@ -42,6 +42,17 @@ for f in sorted(os.listdir(rd)) if os.path.isdir(rd) else []:
         rep[os.path.join(repo, spec["file"])] = out
 json.dump({"Replace": rep}, open(os.path.join(b, "overlay.json"), "w"), indent=1)
 PY
+# two work packages must not register the same op or generator name (map assignment would silently pick one)
+python3 - "$VERIF" <<'PY' || { echo "ERROR harness: duplicate op/generator registration"; exit 2; }
+import re, sys, glob, collections
+seen = collections.defaultdict(list)
+for f in glob.glob(sys.argv[1] + "/harness/verifh/*.go"):
+    for m in re.finditer(r'(opTable|genTable)\["([^"]+)"\]\s*=\s*func', open(f).read()):
+        seen[(m.group(1), m.group(2))].append(f.split("/")[-1])
+dups = {k: v for k, v in seen.items() if len(v) > 1 and k != ("opTable", "case")}
+if dups:
+    print(dups); sys.exit(1)
+PY
 cd "$REPO"
 OUT="${VERIF_HARNESS_OUT:-$B/verifh}"
 go build -modfile="$B/go.mod" -overlay="$B/overlay.json" -o "$OUT.tmp$$" github.com/nelhage/taktician/cmd/internal/verifh
